@@ -14,6 +14,7 @@ import (
 	"strings"
 	"sync"
 	"time"
+	"verifharness/internal/hx"
 
 	"github.com/tjfoc/gmsm/gmtls"
 	"github.com/tjfoc/gmsm/sm2"
@@ -319,11 +320,14 @@ func runPair(victim func(conn net.Conn) *gmtls.Conn, attacker func(conn net.Conn
 	go func() { wg.Wait(); close(done) }()
 	select {
 	case <-done:
-	case <-time.After(allDeadline):
+	case <-time.After(hx.D(allDeadline)):
 		a.Close()
 		return "HANG", "deadline"
 	}
 	a.Close()
+	if grp.timedOut() {
+		return "HANG", "pipe deadline (clock), not a stall"
+	}
 	if strings.HasPrefix(alog, "ATTACKER PANIC") {
 		return "DRIVERBUG", alog
 	}
